@@ -28,6 +28,8 @@ type replayCase struct {
 	Entry  string         `json:"entry"`
 	Params map[string]int `json:"params"`
 	API    []apiEvent     `json:"api"`
+	Repeat int            `json:"repeat,omitempty"` // run the case this many times (existential obligations)
+	Want   string         `json:"want,omitempty"`   // stop repeating once this Reach label was hit
 }
 
 type failure struct {
@@ -73,9 +75,9 @@ func pop(kind, name string) apiEvent {
 		pos++ // engine-side environment value: not replayable natively
 	}
 	if pos >= len(cur.API) {
-		if len(res.Failures) > 0 {
-			// the recorded path ended at the violated assertion: stop here
-			panic(abortCase{"end of recorded counterexample prefix"})
+		if len(res.Failures) > 0 || cur.Repeat > 0 {
+			// the recorded path ended at the violated assertion (or this is a prefix-only case)
+			panic(abortCase{"end of recorded prefix"})
 		}
 		desync(fmt.Sprintf("replay exhausted at %s(%q)", kind, name))
 	}
@@ -182,6 +184,9 @@ func AssertKF(b bool, label, kf string, inRegion bool) {
 
 // Reach marks a reachability witness.
 func Reach(label string) { res.Reached = append(res.Reached, label) }
+
+// Expect declares that some explored path must reach Reach(label) (cross-path existential).
+func Expect(label string) {}
 
 // Observe records a value for differential replay (interpreter vs native).
 func Observe(name string, v any) {
@@ -305,12 +310,19 @@ func ReplayMain(entries map[string]func()) {
 	}
 	for i := range file.Cases {
 		c := &file.Cases[i]
-		cur, pos, clock, clockSet, events = c, 0, 0, false, nil
 		res = &caseResult{ID: c.ID}
 		f := entries[c.Entry]
-		if f == nil {
-			res.Desync = "no such entry " + c.Entry
-		} else {
+		reps := c.Repeat
+		if reps < 1 {
+			reps = 1
+		}
+		seen := map[string]bool{}
+		for k := 0; k < reps; k++ {
+			cur, pos, clock, clockSet, events = c, 0, 0, false, nil
+			if f == nil {
+				res.Desync = "no such entry " + c.Entry
+				break
+			}
 			func() {
 				defer func() {
 					if p := recover(); p != nil {
@@ -322,6 +334,20 @@ func ReplayMain(entries map[string]func()) {
 				}()
 				f()
 			}()
+			if c.Repeat > 0 {
+				for _, l := range res.Reached {
+					seen[l] = true
+				}
+				res.Reached = res.Reached[:0]
+				if seen[c.Want] || res.Desync != "" {
+					break
+				}
+			}
+		}
+		if c.Repeat > 0 {
+			for l := range seen {
+				res.Reached = append(res.Reached, l)
+			}
 		}
 		out, _ := json.Marshal(res)
 		fmt.Println("GOSYM-RESULT " + string(out))
